@@ -280,7 +280,8 @@ theorem status_one_entry_per_command (fl : Flags) (env : Env) (caps : List Bytes
 
 /-- The hypothesis `raised = none` of §1 follows from a condition on the inputs alone: deletions are not
 refused, every exception the ref container raises for a commanded name is of a class one of the two handlers
-catches (as coded: `all_exceptions` or `KeyError`), and a failing unpack raises something in `all_exceptions`. -/
+catches (`FileLocked`, `all_exceptions`, or `KeyError`/`RefFormatError`), and a failing unpack raises something in
+`all_exceptions`. -/
 theorem no_exception_escapes (fl : Flags) (env : Env) (caps : List Bytes) (s : Srv) (u : Unpack) (cmds : List Cmd)
     (h : NoEscape env caps cmds)
     (hu : ∀ mro, u = .raises mro → catches Gen.ReceivePack.allExceptions mro = true) :
@@ -507,6 +508,13 @@ catches, so the condition `NoEscape` holds for a container that raises it (needs
 RefFormatError) -/
 theorem bad_refname_is_caught :
     catches Gen.ReceivePack.badRefCatches [[82, 101, 102, 70, 111, 114, 109, 97, 116, 69, 114, 114, 111, 114]] = true := by
+  decide
+
+/-- a ref whose lock is held by another writer (`FileLocked`: another push, a concurrent pack-refs) no longer kills
+the handler after earlier commands were applied: the class is caught by the handler in front of
+`except all_exceptions`, so it falls under `NoEscape` and gets a status (needs: that `except FileLocked` clause) -/
+theorem lock_contention_is_caught :
+    catches Gen.ReceivePack.lockCatches [[70, 105, 108, 101, 76, 111, 99, 107, 101, 100]] = true := by
   decide
 
 /-- local path: the recorded status is exact -/
